@@ -126,6 +126,11 @@ func checkC14(c *Ctx) {
 		}
 	}
 	lits = append(lits, "", "</script>", "<!--", "]]>", "é", "日本", "\u0085", "\ufeff", "a\\", "\\'", "\\\"", "\\n", "'+alert(1)+'", "\"+x+\"", "${x}", "`", "a'b\"c\\d", strings.Repeat("ab'\"\\\n<", 1500), "\x7f", "\x01\x02", "line1\nline2", "tab\there")
+	// long non-ASCII runs at shifting byte offsets (a generator that chunks long text must not cut a character)
+	for off := 0; off < 4; off++ {
+		pre := strings.Repeat("a", off)
+		lits = append(lits, pre+strings.Repeat("é", 4500), pre+strings.Repeat("日", 3000), pre+strings.Repeat("😀", 2200), pre+strings.Repeat("ab é", 3000))
+	}
 	for _, o := range origins {
 		for _, L := range lits {
 			if !o.ok(L) {
